@@ -140,6 +140,7 @@ func collGen(r *rand.Rand, tier string, b collBias) collInput {
 				s.Pad = []int{1000, 50_000, 200_000, 400_000, 1_000_000}[r.Intn(5)]
 			}
 			s.Root = r.Intn(100) < 22
+			s.Via = []int{0, 0, 1, 1, 2}[r.Intn(5)]
 			if b.Ages && r.Intn(100) < 50 {
 				tt, _ := collEff(cfg)
 				s.Age = []int64{tt * 3 / 10, tt * 55 / 100, tt * 8 / 10, tt * 13 / 10}[r.Intn(4)]
@@ -166,8 +167,16 @@ func collGen(r *rand.Rand, tier string, b collBias) collInput {
 			}
 		case x < wSpan+b.Tick:
 			d := advance()
+			live := r.Intn(3) == 0
+			if live && d == 0 {
+				d = 1
+			}
 			now += d
-			in.Ops = append(in.Ops, collOp{Op: "tick", D: d, W: r.Intn(8)})
+			if live {
+				in.Ops = append(in.Ops, collOp{Op: "ltick", D: d})
+			} else {
+				in.Ops = append(in.Ops, collOp{Op: "tick", D: d, W: r.Intn(8)})
+			}
 			// simulation: everything expired is (probably) gone; ME may keep some, good enough
 			n := 0
 			for i := range trs {
@@ -249,6 +258,124 @@ func collGen(r *rand.Rand, tier string, b collBias) collInput {
 			}
 			in.Ops = append(in.Ops, collOp{Op: "alloc", Bytes: bytes})
 		}
+	}
+	return in
+}
+
+// collGenEjectGrow: the lifetime of the impact estimate. Several traces with distinct sizes in one
+// buffer; an ejection pass whose byte target separates the heaviest from the next (exactly one trace
+// leaves, the survivors' impact has been computed by the sort); then survivors GROW by spans of
+// different sizes so that the impact order changes (typically the lightest becomes the heaviest);
+// then a second (and sometimes third) partial pass whose target again separates the new heaviest
+// from the next. A stale per-trace impact makes the later pass pick a lighter trace first.
+func collGenEjectGrow(r *rand.Rand, tier string) collInput {
+	in := collInput{Workers: []int{1, 1, 1, 2, 3}[r.Intn(5)], T0: 1_700_000_000 * collSec, Dry: r.Intn(100) < 15}
+	in.Tables = [][]collRule{{}}
+	if r.Intn(3) == 0 {
+		c := r.Intn(3)
+		in.Tables = [][]collRule{{{Cls: &c, Drop: true}}}
+	}
+	in.Cfg = collCfg{TT: 100 * collSec, SD: 20 * collSec, SL: 0, ME: 0}
+	ntr := 3 + r.Intn(3)
+	if in.Workers > 1 {
+		ntr = 6 + r.Intn(4)
+	}
+	size := make([]int, ntr)
+	live := make([]bool, ntr)
+	sid := 0
+	addSpan := func(t, pad int, age int64) {
+		s := &collSpan{Tid: t, Sid: sid, Cls: r.Intn(3), Pad: pad, Age: age, Via: []int{0, 1, 2}[r.Intn(3)], Kind: []int{0, 0, 1, 2}[r.Intn(4)]}
+		sid++
+		in.Ops = append(in.Ops, collOp{Op: "span", D: int64(r.Intn(3)) * collMs, Span: s})
+		size[t] += pad + 25
+		live[t] = true
+	}
+	pads := r.Perm(12)
+	for t := 0; t < ntr; t++ {
+		addSpan(t, 10+pads[t%12]*37, 0)
+		if r.Intn(3) == 0 {
+			addSpan(t, r.Intn(9), 0)
+		}
+	}
+	// byte target that lets exactly the heaviest `k` live traces go (single worker view; with
+	// several workers it is only a bias)
+	target := func(k int) int64 {
+		var ss []int
+		for t := 0; t < ntr; t++ {
+			if live[t] {
+				ss = append(ss, size[t])
+			}
+		}
+		sort.Sort(sort.Reverse(sort.IntSlice(ss)))
+		if len(ss) == 0 {
+			return 0
+		}
+		if k > len(ss) {
+			k = len(ss)
+		}
+		sum := 0
+		for i := 0; i < k-1; i++ {
+			sum += ss[i]
+		}
+		// released after k-1 traces <= target < released after k traces; sits at the next trace's size when possible
+		lo, hi := sum, sum+ss[k-1]-1
+		tgt := lo
+		if k < len(ss) && sum+ss[k] >= lo && sum+ss[k] <= hi {
+			tgt = sum + ss[k]
+		} else if hi > lo {
+			tgt = lo + r.Intn(hi-lo+1)
+		}
+		// bias bookkeeping: the k heaviest leave
+		for i := 0; i < k; i++ {
+			for t := 0; t < ntr; t++ {
+				if live[t] && size[t] == ss[i] {
+					live[t] = false
+					break
+				}
+			}
+		}
+		return int64(tgt)
+	}
+	passes := 2 + r.Intn(2)
+	for p := 0; p < passes; p++ {
+		k := 1
+		if r.Intn(4) == 0 {
+			k = 2
+		}
+		for w := 0; w < in.Workers; w++ {
+			if w == 0 || r.Intn(2) == 0 {
+				in.Ops = append(in.Ops, collOp{Op: "eject", W: w, Bytes: target(k)})
+			}
+		}
+		// survivors grow: the lightest live trace gets big spans, another one a small span
+		var liveIdx []int
+		for t := 0; t < ntr; t++ {
+			if live[t] {
+				liveIdx = append(liveIdx, t)
+			}
+		}
+		if len(liveIdx) == 0 {
+			break
+		}
+		sort.Slice(liveIdx, func(a, b int) bool { return size[liveIdx[a]] < size[liveIdx[b]] })
+		grow := liveIdx[0]
+		if r.Intn(4) == 0 {
+			grow = liveIdx[r.Intn(len(liveIdx))]
+		}
+		maxSize := size[liveIdx[len(liveIdx)-1]]
+		for n := 1 + r.Intn(2); n > 0; n-- {
+			var age int64
+			if r.Intn(5) == 0 {
+				age = 30 * collSec // multiplier 2
+			}
+			addSpan(grow, maxSize/2+50+r.Intn(300), age)
+		}
+		if len(liveIdx) > 1 && r.Intn(2) == 0 {
+			addSpan(liveIdx[1+r.Intn(len(liveIdx)-1)], r.Intn(30), 0)
+		}
+	}
+	if r.Intn(3) == 0 {
+		in.Flush = true
 	}
 	return in
 }
